@@ -215,6 +215,10 @@ func drawItemPlan(rt *rapid.T, op kmip.Operation, conformantBias bool) itemPlan 
 		if p.OpMode != "other" {
 			o = rapid.SampledFrom(gen.Ops).Draw(rt, "payloadop").Op
 		}
+		if o == op {
+			// the "other" operation drawn is the requested one: that is simply the conformant payload
+			p.PayloadMode = "requested"
+		}
 		p.PayloadHex = payloadTree(rt, o)
 	case "generic":
 		to := gen.DefaultTreeOpts()
